@@ -200,6 +200,29 @@ theorem spatial_legs (sqrt : α → α) (hs : SqrtSpec sqrt) (trunc : α → Int
           simp only [legs2D, List.getElem_cons_succ]
           exact ih (by simp) i (by simpa [legs2D] using hi) (by simpa using hi')
 
+/-- T3c `spatial_distance_along_leg`. A point at fraction `f ≥ 0` of the leg `a → b` (as produced by T3) is at
+planimetric distance `f · |ab|` from `a`: together with T3 (`S[r−1] + f·legs[r−1] = s`) the sample at
+`s = k·ds` is at distance `s` from the first fix *measured along the original 2D polyline*. -/
+theorem spatial_distance_along_leg (sqrt : α → α) (hs : SqrtSpec sqrt) (a b : Fix α) (f t : α) (hf : 0 ≤ f) :
+    sqrt (((lerpFix a b f t).x - a.x) * ((lerpFix a b f t).x - a.x)
+        + ((lerpFix a b f t).y - a.y) * ((lerpFix a b f t).y - a.y))
+      = f * sqrt ((b.x - a.x) * (b.x - a.x) + (b.y - a.y) * (b.y - a.y)) := by
+  have hD : 0 ≤ (b.x - a.x) * (b.x - a.x) + (b.y - a.y) * (b.y - a.y) :=
+    add_nonneg (mul_self_nonneg _) (mul_self_nonneg _)
+  have hrad : ((lerpFix a b f t).x - a.x) * ((lerpFix a b f t).x - a.x)
+        + ((lerpFix a b f t).y - a.y) * ((lerpFix a b f t).y - a.y)
+      = f * f * ((b.x - a.x) * (b.x - a.x) + (b.y - a.y) * (b.y - a.y)) := by
+    simp only [lerpFix]; ring
+  rw [hrad]
+  obtain ⟨h1, h2⟩ := hs _ (mul_nonneg (mul_self_nonneg f) hD)
+  obtain ⟨h3, h4⟩ := hs _ hD
+  apply (mul_self_inj h1 (mul_nonneg hf h3)).mp
+  rw [h2]
+  calc f * f * ((b.x - a.x) * (b.x - a.x) + (b.y - a.y) * (b.y - a.y))
+      = f * f * (sqrt ((b.x - a.x) * (b.x - a.x) + (b.y - a.y) * (b.y - a.y))
+          * sqrt ((b.x - a.x) * (b.x - a.x) + (b.y - a.y) * (b.y - a.y))) := by rw [h4]
+    _ = _ := by ring
+
 /-- Front end `Track.resample(delta, ALGO_LINEAR, mode, npts, factor)`. (a) whenever it returns, the table
 of analytical features is empty; (b) with an explicit `delta` on a non-empty track it is exactly
 `__resampleTemporal` (mode 2) / `__resampleSpatial` (mode 1, numeric step); (c) with `delta = None` it is the
@@ -291,5 +314,14 @@ example : (resampleTemporal (fun x : ℚ => x.floor) demo (.number 3)).toOption.
 example : resampleSpatialLegs (fun x : ℚ => x.floor) demo [5, 0, 5] 2
     = .ok [⟨0, 0, 0, 10⟩, ⟨6/5, 8/5, 4, 14⟩, ⟨12/5, 16/5, 8, 18⟩, ⟨18/5, 24/5, 8, 281/10⟩,
            ⟨24/5, 32/5, 4, 343/10⟩, ⟨6, 8, 0, 81/2⟩] := by decide +kernel
+
+
+/-- outside the hypotheses of T1/T2 (finding `unsorted-request-list`): instants that are not in chronological
+order are not interpolated — the model reproduces the code: `t = 15` is extrapolated on the leg bracketing `t = 25`
+(the true position is `(5, 0)`), and a list starting after the end returns nothing. -/
+example : resampleTemporal (fun x : ℚ => x.floor) [⟨0, 0, 0, 10⟩, ⟨10, 0, 0, 20⟩, ⟨10, 10, 0, 30⟩] (.instants [25, 15])
+    = .ok [⟨10, 5, 0, 25⟩, ⟨10, -5, 0, 15⟩] := by decide +kernel
+example : resampleTemporal (fun x : ℚ => x.floor) [⟨0, 0, 0, 10⟩, ⟨10, 0, 0, 20⟩] (.instants [21, 15])
+    = .ok [] := by decide +kernel
 
 end TV.C05
